@@ -151,6 +151,57 @@ def h_itemised(e_seg: bool, e_ele: bool, comp: bool, bi: int, pos: int, second: 
     return sorted(got3) == sorted(exp3) and got4 == exp4
 
 
+_CTLS = ('0001', '0002', '0003')
+_ISA278 = 'ISA*00*          *00*          *ZZ*SENDER         *ZZ*RECEIVER       *030828*1128*U*00401*000010121*0*T*:'
+
+
+def h_pipeline_totals(c2: int, c3: int, dup_gs: bool, third: bool) -> bool:
+    '''
+    pre: 0 <= c2 <= 2 and 0 <= c3 <= 2
+    post: _
+    '''
+    # the REAL reader + validator + 997 visitor on two groups of 2-3 small 278 sets whose control numbers are a symbolic choice
+    # (repeats included: a repeated control number is itself an error, but every set received is still named and counted)
+    g1 = ['0001', _CTLS[c2]] + ([_CTLS[c3]] if third else [])
+    g2 = ['0001']
+    gs_ctls = ['17', '17' if dup_gs else '18']
+    segs = [_ISA278]
+    for gctl, ctls in zip(gs_ctls, (g1, g2)):
+        segs.append('GS*HI*SENDERGS*RECEIVERGS*20030828*1128*%s*X*004010X094A1' % gctl)
+        for c in ctls:
+            segs += ['ST*278*%s' % c, 'BHT*0078*11*121231*20050802*1202', 'SE*3*%s' % c]
+        segs.append('GE*%d*%s' % (len(ctls), gctl))
+    segs.append('IEA*2*000010121')
+    r = docs.validate(docs.join_segments(segs), ack=True)
+    if r.exc is not None or not r.ack:
+        return False
+    ack = ack_segments(r.ack)
+    groups = []
+    for a in ack:
+        if a[0] == 'AK1':
+            groups.append({'ctl': a[2], 'ak2': [], 'ak5': [], 'ak9': None})
+        elif a[0] == 'AK2':
+            groups[-1]['ak2'].append(a[2])
+        elif a[0] == 'AK5':
+            groups[-1]['ak5'].append(a[1])
+        elif a[0] == 'AK9':
+            groups[-1]['ak9'] = a
+    if [g['ctl'] for g in groups] != gs_ctls:
+        return False
+    for g, ctls in zip(groups, (g1, g2)):
+        ak9 = g['ak9']
+        if g['ak2'] != ctls or len(g['ak5']) != len(ctls) or ak9 is None:
+            return False
+        if (ak9[2], ak9[3], ak9[4]) != ('%d' % len(ctls), '%d' % len(ctls), '%d' % g['ak5'].count('A')):
+            return False
+        if '5' in ak9[5:]:            # GE01 equals the true number of sets: "count mismatch" must not be reported
+            return False
+        if (ak9[1] == 'A') and g['ak5'].count('A') != len(ctls):
+            return False
+    anyr = any(x != 'A' for g in groups for x in g['ak5']) or any(g['ak9'][1] != 'A' for g in groups)
+    return (not anyr) or (r.verdict is False)
+
+
 def _ob(name, fn, tier, timeout, kind='ch', **params):
     return {'name': name, 'fn': fn, 'kind': kind, 'tier': tier, 'timeout': timeout, 'params': params}
 
@@ -160,6 +211,7 @@ OBLIGATIONS = [
      for a in ('997', '999') for fam in ('set', 'group') for (n, sh) in (('1g1s', [False, False, 0]), ('1g2s', [False, True, 1]), ('2g2s_ge3', [True, True, 2]), ('2g1s_ge0', [True, False, 3]))] + [
     _ob('itemised_997', 'h_itemised', 'quick', 900, ack='997'),
     _ob('itemised_999', 'h_itemised', 'quick', 900, ack='999'),
+    _ob('pipeline_totals_997', 'h_pipeline_totals', 'quick', 2400),     # real reader counters x error tree x visitor (repeated control numbers)
 ]
 
 LEVEL = 'other'
@@ -167,13 +219,14 @@ EXPLANATION = __doc__
 BOUNDS = ('1..2 groups, 1..2 sets in the first group, every combination of the error flags of the first set with the group flags clear, and of the group flags (+ element error in the second set) with the set flags clear: flags (set-level, segment, element on body, element on ST, element on SE, '
           'unclosed), GS-level error, GS element error, declared GE01 in {0,1,2,3}; 997 (4010) and 999 (5010); itemisation: segment position 5..7, element 1..3, simple or '
           'component, 4 offending values.')
-OUTSIDE = ('more than two groups / sets (the visitors iterate, they keep no cross-set state except the counters checked here); several interchanges in one file; '
+OUTSIDE = ('more than two groups / three sets (the visitors iterate, they keep no cross-set state except the counters checked here); several interchanges in one file; '
            'the pipeline that produces the tree (C03/C07); TA1.')
 ASSUMPTIONS = [
     'the tree is built through the real err_handler API in the call order of x12n_document, with stub reader and stub map nodes',
+    'pipeline_totals_997 alone runs the real reader and x12n_document: two groups of 2-3 three-segment 278 sets, control numbers a symbolic choice among 0001-0003 (repeats included), second group control number equal or not',
     'clock and RNG are frozen (environment stub)',
     'an unclosed set / group counts as "an error was reported inside it" (the missing-trailer error is recorded there)',
 ]
-FUNCTIONS = ['pyx12/error_handler.py:err_handler.*', 'pyx12/error_handler.py:err_gs.close', 'pyx12/error_handler.py:err_gs._get_ack_code',
+FUNCTIONS = ['pyx12/x12file.py:X12Base._parse_segment', 'pyx12/x12n_document.py:x12n_document', 'pyx12/error_handler.py:err_handler.*', 'pyx12/error_handler.py:err_gs.close', 'pyx12/error_handler.py:err_gs._get_ack_code',
              'pyx12/error_handler.py:err_st.close', 'pyx12/error_handler.py:err_st.err_count', 'pyx12/error_997.py:error_997_visitor.*',
              'pyx12/error_999.py:error_999_visitor.*']
